@@ -1172,6 +1172,7 @@ func init() {
 			c := base(r)
 			c.nCh = 1 + r.Intn(3)
 			c.advStranger, c.advRole, c.advRestart, c.advDup, c.advTerminal, c.advLocalRole = stranger, role, restart, dup, terminal, local
+			c.vouchers = restart && r.Intn(2) == 0 // channels with several vouchers: a restart must repeat the first one
 			c.limits, c.finalization, c.forcePause, c.pauses = r.Intn(2) == 0, r.Intn(2) == 0, r.Intn(3) == 0, r.Intn(3) == 0
 			c.holdOpen = r.Intn(3) != 0 // mostly keep channels open and quiescent so that there is live state to protect
 			c.closes = r.Intn(4) == 0
